@@ -389,13 +389,127 @@ Proof.
            end; rewrite ?orb_true_r; reflexivity.
 Qed.
 
+(* ---------- the words of a declaration / control line ---------- *)
+(* one or more words, then "{", or — after a word that is no name — "(" *)
+Inductive wlist : list token -> Prop :=
+| wl_brace t o B : word t = true -> is_lbrace o = true -> wlist (t :: o :: B)
+| wl_group t p R : word t = true -> is_name t = false -> is_lparen p = true -> wlist (t :: p :: R)
+| wl_cons t V : word t = true -> wlist V -> wlist (t :: V).
+
+Lemma wlist_plain V : wlist V -> cand_plain V 0 = None.
+Proof.
+  intros [t o B Ht Ho|t p R Ht Hn Hp|t V' Ht HV]; rewrite cand_plain_0.
+  - unfold ge0. rewrite (lbrace_not_lparen o Ho). destruct (is_name t); reflexivity.
+  - rewrite Hn. reflexivity.
+  - assert (E : ge0 V' = None).
+    { destruct HV as [t' ? ? Ht' _|t' ? ? Ht' _ _|t' ? Ht' _]; unfold ge0;
+        apply word_inv in Ht' as [Ht' _]; rewrite Ht'; reflexivity. }
+    rewrite E. destruct (is_name t); reflexivity.
+Qed.
+
+Lemma wlist_tail_plain t V : wlist (t :: V) -> cand_plain V 0 = None.
+Proof.
+  intros H. inversion H as [? o B _ Ho|? p R _ _ Hp|? ? _ HV]; subst.
+  - rewrite cand_plain_0, (symbol_not_name _ _ Ho). reflexivity.
+  - rewrite cand_plain_0, (symbol_not_name _ _ Hp). reflexivity.
+  - apply wlist_plain. exact HV.
+Qed.
+
+Lemma wlist_function V : wlist V -> cand_function V 0 = None.
+Proof.
+  intros H. pose proof (wlist_plain V H) as HP. destruct V as [|t V']; [inversion H|].
+  rewrite cand_function_0. destruct (kw_is t s_function); [|exact HP].
+  rewrite (wlist_tail_plain t V' H). reflexivity.
+Qed.
+
+Lemma wlist_head_noteq t V : wlist (t :: V) -> hd_ok noteq V.
+Proof.
+  intros H. inversion H as [? o B _ Ho|? p R _ _ Hp|? ? _ HV]; subst; cbn [hd_ok]; unfold noteq.
+  - rewrite (symbol_not_operator _ _ _ Ho). reflexivity.
+  - rewrite (symbol_not_operator _ _ _ Hp). reflexivity.
+  - destruct HV as [t' ? ? Ht' _|t' ? ? Ht' _ _|t' ? Ht' _]; cbn [hd_ok];
+      apply word_inv in Ht' as [_ Ht']; rewrite Ht'; reflexivity.
+Qed.
+
+Lemma wlist_arrow_nc V : wlist V -> arrow_nc V = None.
+Proof.
+  intros H. destruct V as [|t V']; [inversion H|]. apply arrow_nc_noteq. eapply wlist_head_noteq. exact H.
+Qed.
+
+Lemma wlist_tail_arrow_nc t V : wlist (t :: V) -> arrow_nc V = None.
+Proof.
+  intros H. inversion H as [? o B _ Ho|? p R _ _ Hp|? ? _ HV]; subst.
+  - apply arrow_nc_not_name. eapply symbol_not_name; exact Ho.
+  - apply arrow_nc_not_name. eapply symbol_not_name; exact Hp.
+  - apply wlist_arrow_nc. exact HV.
+Qed.
+
+Lemma wlist_arrow V : wlist V -> cand_arrow V 0 = None.
+Proof.
+  intros H. pose proof (wlist_arrow_nc V H) as HP. destruct V as [|t V']; [inversion H|].
+  rewrite cand_arrow_0. destruct (kw_is t s_const); [|exact HP].
+  rewrite (wlist_tail_arrow_nc t V' H). reflexivity.
+Qed.
+
+(* the words of a control line in their context *)
+Definition last_not_name (ws : list token) : Prop := ws = [] \/ is_name (last ws (mkTok KOther [] 0 0)) = false.
+
+Lemma words_wlist t ws cond R :
+  word t = true -> forallb word ws = true ->
+  (cond = [] \/ (groups cond /\ is_name (last (t :: ws) (mkTok KOther [] 0 0)) = false)) ->
+  hd_ok (fun x => is_lbrace x) R -> R <> [] ->
+  wlist ((t :: ws) ++ cond ++ R).
+Proof.
+  intros Ht Hws Hcond HR Hne. revert t Ht Hcond. induction ws as [|t' ws IH]; intros t Ht Hcond.
+  - cbn [app]. destruct Hcond as [->|[Hg Hl]].
+    + cbn [app]. destruct R as [|o B]; [congruence|]. apply wl_brace; [exact Ht | exact HR].
+    + destruct (groups_head cond Hg) as (p & r & -> & Hp). cbn [app]. apply wl_group; [exact Ht | exact Hl | exact Hp].
+  - cbn [forallb] in Hws. apply andb_prop in Hws as [Ht' Hws]. cbn [app]. apply wl_cons; [exact Ht|].
+    apply (IH Hws t' Ht'). destruct Hcond as [->|[Hg Hl]]; [left; reflexivity | right; split; [exact Hg | exact Hl]].
+Qed.
+
+Lemma last_default_irrelevant {A} (l : list A) a d d' : last (a :: l) d = last (a :: l) d'.
+Proof. revert a. induction l as [|b l IH]; intros a; [reflexivity|]. change (last (b :: l) d = last (b :: l) d'). apply IH. Qed.
+
+(* one or more words followed by R: no accepted candidate, for any selection that rejects word lists *)
+Lemma words_no_acc_gen c f (Hc : cshift c) (Hf : fshift f) (Hw : forall V, wlist V -> acc c f V 0 = None) ws cond R B :
+  ws <> [] -> forallb word ws = true ->
+  (cond = [] \/ (groups cond /\ is_name (last ws (mkTok KOther [] 0 0)) = false)) ->
+  hd_ok (fun x => is_lbrace x) R -> R <> [] ->
+  no_acc c f ws ((cond ++ R) ++ B).
+Proof.
+  intros Hne Hws Hcond HR HRne. induction ws as [|t ws IH]; [congruence|].
+  cbn [forallb] in Hws. apply andb_prop in Hws as [Ht Hws].
+  apply (no_acc_cons c f Hc Hf).
+  - apply Hw.
+    replace (t :: ws ++ (cond ++ R) ++ B) with ((t :: ws) ++ cond ++ (R ++ B)) by (norm_app; reflexivity).
+    apply words_wlist; try assumption.
+    + destruct R; [congruence | exact HR].
+    + destruct R; [congruence | discriminate].
+  - destruct ws as [|t' ws']; [apply no_acc_nil|]. apply IH; [discriminate | exact Hws|].
+    destruct Hcond as [->|[Hg Hl]]; [left; reflexivity | right; split; [exact Hg | exact Hl]].
+Qed.
+
+(* kw :: words of a control line *)
+Lemma ctrl_words_no_acc c f (Hc : cshift c) (Hf : fshift f) (Hw : forall V, wlist V -> acc c f V 0 = None) kw words cond o B :
+  is_keyword kw = true -> forallb word_tok words = true ->
+  (cond = [] \/ (groups cond /\ is_name (last (kw :: words) kw) = false)) -> is_lbrace o = true ->
+  no_acc c f (kw :: words) ((cond ++ [o]) ++ B).
+Proof.
+  intros Hkw Hwords Hcond Ho.
+  apply (words_no_acc_gen c f Hc Hf Hw); [discriminate | | | exact Ho | discriminate].
+  - cbn [forallb]. unfold word at 1. rewrite Hkw, orb_true_r. exact Hwords.
+  - destruct Hcond as [->|[Hg Hl]]; [left; reflexivity | right; split; [exact Hg|]].
+    rewrite (last_default_irrelevant words kw _ kw). exact Hl.
+Qed.
+
 (* ---------- the good selections ---------- *)
 Record good (l : language) (c : cand_fn) (f : follow_fn) : Prop := mkGood
   { g_c : cshift c;
     g_f : fshift f;
     g_isuf : forall w, isuf w -> acc c f w 0 = None;
     g_sym : forall t W, is_name t = false -> is_keyword t = false -> acc c f (t :: W) 0 = None;
-    g_kwsym : forall t W, is_keyword t = true -> hd_ok notname W -> acc c f (t :: W) 0 = None;
+    g_wlist : forall V, wlist V -> acc c f V 0 = None;
     g_prefix : forall t W, prefix_word l t = true -> hd_ok word W -> acc c f (t :: W) 0 = None }.
 
 Lemma good_plain_f l f : fshift f -> isuf_rejects f -> good l cand_plain f.
@@ -405,7 +519,7 @@ Proof.
   - exact Hf.
   - intros w. apply isuf_plain; assumption.
   - intros t W Hn _. apply plain_not_name. exact Hn.
-  - intros t W Hk _. apply plain_not_name. apply keyword_not_name. exact Hk.
+  - intros V HV. apply acc_cand_none, wlist_plain, HV.
   - intros t W _ HW. apply plain_not_lparen. apply word_nlp. exact HW.
 Qed.
 
@@ -416,7 +530,7 @@ Proof.
   - exact Hf.
   - intros w. apply isuf_function; assumption.
   - intros t W Hn Hk. apply function_not_name; [apply kw_is_not_keyword; exact Hk | exact Hn].
-  - intros t W Hk HW. apply function_kw_notname; [apply keyword_not_name; exact Hk | exact HW].
+  - intros V HV. apply acc_cand_none, wlist_function, HV.
   - intros t W Hp HW. apply prefix_word_inv in Hp as (H1 & _). apply function_not_lparen; [exact H1 | apply word_nlp; exact HW].
 Qed.
 
@@ -433,7 +547,7 @@ Proof.
   - apply fshift_brace.
   - apply isuf_arrow.
   - intros t W Hn Hk. apply arrow_not_name; [apply kw_is_not_keyword; exact Hk | exact Hn].
-  - intros t W Hk HW. apply arrow_kw_notname; [apply keyword_not_name; exact Hk | exact HW].
+  - intros V HV. apply acc_cand_none, wlist_arrow, HV.
   - intros t W Hp HW. apply prefix_word_inv in Hp as (_ & H2 & _). apply arrow_noteq; [exact H2 | apply word_noteq; exact HW].
 Qed.
 
@@ -496,18 +610,28 @@ Section Pieces.
     apply prefix_word_inv in Hq. apply Hq.
   Qed.
 
-  (* keyword, optional condition, "{" *)
-  Lemma ctrl_front_no_acc kw cond o B :
-    is_keyword kw = true -> (cond = [] \/ groups cond) -> is_lbrace o = true -> no_acc c f (kw :: cond ++ [o]) B.
+  Lemma words_no_acc ws cond R B :
+    ws <> [] -> forallb word ws = true ->
+    (cond = [] \/ (groups cond /\ is_name (last ws (mkTok KOther [] 0 0)) = false)) ->
+    hd_ok (fun x => is_lbrace x) R -> R <> [] ->
+    no_acc c f ws ((cond ++ R) ++ B).
+  Proof. apply (words_no_acc_gen c f (g_c _ _ _ G) (g_f _ _ _ G) (g_wlist _ _ _ G)). Qed.
+
+  (* keyword, further words, optional condition, "{" *)
+  Lemma ctrl_front_no_acc kw words cond o B :
+    is_keyword kw = true -> forallb word_tok words = true ->
+    (cond = [] \/ (groups cond /\ is_name (last (kw :: words) kw) = false)) -> is_lbrace o = true ->
+    no_acc c f (kw :: words ++ cond ++ [o]) B.
   Proof.
-    intros Hkw Hcond Ho.
-    apply (no_acc_cons c f (g_c _ _ _ G) (g_f _ _ _ G)).
-    - apply (g_kwsym _ _ _ G); [exact Hkw|]. destruct Hcond as [->|Hg].
-      + cbn [app hd_ok]. unfold notname. rewrite (symbol_not_name _ _ Ho). reflexivity.
-      + destruct (groups_head cond Hg) as (p & r & -> & Hp). cbn [app hd_ok]. unfold notname.
-        rewrite (symbol_not_name _ _ Hp). reflexivity.
+    intros Hkw Hwords Hcond Ho.
+    change (kw :: words ++ cond ++ [o]) with ((kw :: words) ++ cond ++ [o]).
+    apply (no_acc_app c f (g_c _ _ _ G) (g_f _ _ _ G)).
+    - apply words_no_acc; [discriminate | | | exact Ho | discriminate].
+      + cbn [forallb]. unfold word at 1. rewrite Hkw, orb_true_r. exact Hwords.
+      + destruct Hcond as [->|[Hg Hl]]; [left; reflexivity | right; split; [exact Hg|]].
+        rewrite (last_default_irrelevant words kw _ kw). exact Hl.
     - apply (no_acc_app c f (g_c _ _ _ G) (g_f _ _ _ G)); [|eapply symbol_no_acc; exact Ho].
-      destruct Hcond as [->|Hg]; [apply no_acc_nil | apply groups_no_acc; exact Hg].
+      destruct Hcond as [->|[Hg _]]; [apply no_acc_nil | apply groups_no_acc; exact Hg].
   Qed.
 End Pieces.
 
